@@ -2,6 +2,7 @@
 from __future__ import annotations
 
 import ast
+from typing import Optional
 
 from ..absint import Env, Facts, Lin, assume, entails_ge0
 from ..astutil import call_name
@@ -60,28 +61,51 @@ def rule_r2(ctx: Ctx) -> None:
 
 
 def rule_r3(ctx: Ctx) -> None:
+    """The full decider's frontier disjunct, found in the filters that reach random.choice in the abstract interpretation
+    of its chooser (helpers inlined, locals such as a hoisted budget resolved): the non-recursive disjunct with an equality
+    must mean distance == max_depth - ctx.depth."""
+    from .depthrules import ChoiceOf, FiltV, OrList, _decider_paths
+    from ..absint import Lin
     prog = ctx.prog
     n = 0
     for f in prog.implementations(DECIDER, "choose_production_alternatives"):
         if not (f.cls and "Full" in f.cls.name):
             continue
-        for a in walk_local(f.node):
-            if not (isinstance(a, ast.Assign) and isinstance(a.value, ast.ListComp) and a.value.generators[0].ifs):
+        outs, (d, M, c) = _decider_paths(ctx, f)
+        seen: set[int] = set()
+        verdict: Optional[bool] = None
+        why = ""
+        for o in outs:
+            if o.kind != "return" or not isinstance(o.value, ChoiceOf):
                 continue
-            cond = a.value.generators[0].ifs[0]
-            for conj in _dnf(cond):
-                mentions_rec = any("recursive_prods" in norm(x) for x in conj)
-                eqs = [x for x in conj if isinstance(x, ast.Compare) and isinstance(x.ops[0], ast.Eq)]
-                if mentions_rec or not eqs:
+            parts = o.value.lst.parts if isinstance(o.value.lst, OrList) else [o.value.lst]
+            for lst in parts:
+                if not isinstance(lst, FiltV):
                     continue
-                n += 1
-                env, d, M, c = _cond_env()
-                for atom in conj:
-                    assume(env, atom, True)
-                ok = entails_ge0(env.facts, d - (M - c)) and entails_ge0(env.facts, (M - c) - d)
-                ctx.ob("C04.R3", f, eqs[0], f"frontier disjunct '{norm(eqs[0])[:80]}' means: ends exactly at the limit", ok,
-                       "" if ok else f"'{norm(eqs[0])}' admits terminal productions one level above the limit: FullDecider(max_depth=D) builds full "
-                                     f"trees of depth D-1 (all branches end at 1, 2, 4 for D = 2, 3, 5); FullInitializer hides it by passing max_depth + 1")
+                for cond, snap in lst.conds:
+                    if id(cond) in seen:
+                        continue
+                    seen.add(id(cond))
+                    for conj in _dnf(cond):
+                        mentions_rec = any("recursive_prods" in norm(x) for x in conj)
+                        eqs = [x for x in conj if isinstance(x, ast.Compare) and isinstance(x.ops[0], ast.Eq)]
+                        if mentions_rec or not eqs:
+                            continue
+                        n += 1
+                        facts = o.env.facts.copy()
+                        e2 = snap.copy()
+                        e2.facts = facts
+                        for atom in conj:
+                            assume(e2, atom, True)
+                        off = next((k for k in range(-4, 5) if entails_ge0(facts, d - (M - c) - Lin.c(k)) and entails_ge0(facts, (M - c) + Lin.c(k) - d)), None)
+                        ok = off == 0
+                        desc = f"{f.cls.name}: the frontier (non-recursive) disjunct is 'distance == remaining depth" + \
+                            ("" if off == 0 else f" {off:+d}" if off is not None else " + ?") + "'"
+                        ctx.ob("C04.R3", f, f.node, desc, ok if off is not None else None,
+                               "" if ok else (f"'{norm(eqs[0])}' admits terminal productions {-off if off is not None else '?'} level(s) above the limit: "
+                                              f"FullDecider(max_depth=D) builds full trees of depth D{off:+d} (all branches end at 1, 2, 4 for D = 2, 3, 5 "
+                                              f"with the pinned -1); FullInitializer hides it by passing max_depth + 1" if off is not None else
+                                              f"'{norm(eqs[0])}' is not an equality between the distance and the remaining depth"))
     ctx.floor("C04.R3", n, 1, "frontier disjuncts of the full decider")
 
 
